@@ -21,7 +21,7 @@ func verifHarness_Z1_RoundTrip() {
 	if verifChoice("cfg", 2) == 1 {
 		// string-heavy shapes: flat arrays of strings (lengths 0/1/2) and NOP runs, so that several strings
 		// (equal, prefix-related, colliding) fit into a small tape
-		cfg.objects, cfg.nums, cfg.ones, cfg.maxDepth, cfg.strLen, cfg.strLen2 = false, false, false, 0, 1, 2
+		cfg.objects, cfg.nums, cfg.ones, cfg.maxDepth, cfg.strLen, cfg.strLen2, cfg.strLen3 = false, false, false, 0, 1, 0, 2
 	}
 	pj, root := verifGenDoc(cfg, T)
 	s := verifNewSerializer()
